@@ -116,7 +116,7 @@ func c12StalledTerminal(r *ev.Result) {
 func c12BusyBroker(r *ev.Result) {
 	ich := make(chan string, 16)
 	och := make(chan opshell.CLine, 4096)
-	b, err := iobroker.New(ich, och)
+	b, err := hworld.NewBroker(ich, och)
 	if nil != err {
 		ev.Broken("%s", err)
 	}
@@ -139,7 +139,7 @@ func c12BusyBroker(r *ev.Result) {
 	<-half /* Its "disconnected" event is now being delivered to slow: the broker's listener set is locked. */
 	time.Sleep(50 * time.Millisecond)
 
-	srv, err := hsrv.New(sl, "127.0.0.1:0", "", "", ich, och, b, "", nil, false, true)
+	srv, err := hworld.NewServer(sl, "127.0.0.1:0", "", "", ich, och, b, "", nil, false, true)
 	if nil != err {
 		ev.Broken("%s", err)
 	}
